@@ -58,6 +58,9 @@ def real_dist(kind, shape, cond, seed):
         base = D.Uniform(-jnp.ones(shape) * 1.2, jnp.ones(shape) * 1.5)
         node = bd.build_leaf({"k": "AdditiveCondition", "shape": list(shape), "cond": list(cond), "seed": seed, "module": "tensor"})
         return D.Transformed(base, node.obj)
+    if kind == "condbase":  # a CONDITIONAL base distribution under an unconditional bijection
+        inner = real_dist("additive", shape, cond, seed)
+        return D.Transformed(inner, B.Affine(jnp.full(shape, 0.3), jnp.full(shape, 1.7)))
     if kind == "lognormal":
         return D.LogNormal(jnp.zeros(shape) + 0.2, jnp.ones(shape) * 0.7)
     if kind == "mixture":
@@ -177,11 +180,11 @@ def bcast_pair(draw):
 
 @st.composite
 def cases(draw):
-    kind = draw(st.sampled_from(["tagging", "tagging", "tagging", "additive", "coupling", "maf", "mixture", "bounded", "lognormal"]))
+    kind = draw(st.sampled_from(["tagging", "tagging", "tagging", "additive", "coupling", "maf", "mixture", "bounded", "lognormal", "condbase", "condbase"]))
     if kind == "tagging":
         shape = draw(st.sampled_from([(), (2,), (3,), (2, 2), (1,)]))
         cond = draw(st.sampled_from([None, (), (2,), (3,), (2, 3), (1,)]))
-    elif kind in ("additive", "bounded"):
+    elif kind in ("additive", "bounded", "condbase"):
         shape = draw(st.sampled_from([(), (3,), (2, 2)]))
         cond = draw(st.sampled_from([(), (2,), (2, 2)]))
     elif kind in ("coupling", "maf"):
